@@ -56,7 +56,7 @@ prop('C10', 'proof', 'Verus contracts: encap_with_eph / decap fail with EncapErr
      'for the X25519 instance s_dh(sk, pk) is None exactly when X25519(sk, pk) is all-zero; encap_with_eph/decap are verified to return Err(EncapError)/Err(DecapError) iff some DH is None, '
      'and setup_sender/setup_receiver/single_shot_* to propagate it with no context produced; non-zero results are never rejected (iff).')
 prop('C12', 'proof', 'Verus contracts on Serializable/Deserializable (sizes via typenum values, IncorrectInputLength(expected, given), ser(from_bytes(b)) == b); Kani for write_exact bodies and must-panic',
-     'from_bytes is verified for X25519 keys, NIST public keys, encapsulated keys of the 4 KEMs and AEAD tags; to_bytes/write_exact preconditions (exact buffer length) are proved at every internal call site.')
+     'from_bytes is verified for X25519 keys, NIST public keys, encapsulated keys of the 4 KEMs and AEAD tags; to_bytes/write_exact preconditions (exact buffer length) are proved at every internal call site. The NIST write_exact / dh bodies are trusted one-line delegations to the curve crates in the Verus run; a BOUNDED native known-answer run on the SEC 2 generator of each curve (kat/nist_kat.rs, one input per curve) stands in for them and is never counted as proved.')
 prop('C01', 'proof', 'Verus: function contracts (setup, encap/decap, seal/open) + round-trip lemmas over the contracts (induction over the message index)',
      'setup_sender and setup_receiver are verified equal to the same key-schedule spec function; encap and decap to dhkem_encap_spec / dhkem_decap_spec; the agreement lemma shows the two abstract contexts are equal '
      'when pkR = pk(skR) (DH commutativity axiom), and the sequence lemma shows the i-th sealed message opens to the i-th plaintext for every sequence length.', extra=[A_IDEAL])
